@@ -3,6 +3,7 @@ import Orx.IW.Outs
 import Orx.IW.Progress
 import Orx.IW.Termination
 import Orx.GenThms.ProtoSim
+import Orx.GenThms.ProtoSimBuf
 /-! # C09 Progress: every call returns; known-size sources never wait -/
 namespace Orx.Props.C09
 open Orx Orx.KS
@@ -114,5 +115,13 @@ theorem source_requests_are_the_translated_functions (k : Nat) :
     (∀ n, 1 ≤ n → GenThms.Proto.reqTree k (.chunk n) = GenThms.Proto.treeAt k (.resv (.chunk n))) ∧
     GenThms.Proto.reqTree k .skip = GenThms.Proto.treeAt k .skp :=
   ⟨GenThms.Proto.reqTree_single k, GenThms.Proto.reqTree_chunk k, GenThms.Proto.reqTree_skip k⟩
+
+
+/-- a panic of the wrapped iterator inside the fill loop of the buffered pull: the guard stores `completed := true`, then
+the thread unwinds; nothing is published -/
+theorem source_buffered_panic_marks_completed {β : Type} (REST : List (Option Nat) → Nat → RSP.Prog β) (k : Nat)
+    (vals : List (Option Nat)) (i : Nat) :
+    GenThms.Proto.child (GenThms.Proto.tFillExit REST k vals i) (.src .panic) =
+      some (.stB .C .seqcst true (.panic "next")) := rfl
 
 end Orx.Props.C09
